@@ -28,6 +28,8 @@ Oracles (each with its own key):
                  (evaluator redata) the same with pass_spatial_data called AGAIN on every live object with different data of the same shape, of
                  another shape, and back to the first data, in every pair of positions of the history: every object must equal a fresh
                  object given the CURRENT data (history/<family>/<attribute>/exposed-by:new-data-same-shape | new-data-other-shape | back-to-first-data)
+  xscale/<any of value, pairwise, block, sym, psd, grad, compose>   the same oracles with ALL coordinates multiplied by 1e-9, 1e-7, 1e-4, 1e4, 1e9 and the
+                 length-scales, change-point locations and widths scaled along (reference on the same floats)
   extreme/..     extreme-but-legal regimes (change-point widths 1e-6..1e2 data ranges, locations at / beyond the data edges, length-scales
                  1e-3..1e3 ranges, amplitudes exp(+-10), points >= 1e3 widths from the change-point): results finite, values and gradients
                  equal the documented formula in mpmath entry by entry (extreme/<family>/<what>/non-finite, ../builder-vs-formula-offdiag,
@@ -88,6 +90,7 @@ KERNELS = [
 ]
 ND_ALL = [(n, d) for d in (1, 2, 3) for n in (1, 2, 3, 4, 5, 6, 8)]
 DESIGNS = ["regular", "dups", "clustered", "permuted"]
+XSCALES = [1e-4, 1e4, 1e-7, 1e-9, 1e9]  # absolute coordinate scales (units of x), nearest to 1 first
 
 
 def needs_axis(spec):
@@ -137,6 +140,17 @@ def ev_kernel(case):
     info = R.param_info(spec, n, d)
     P = len(info)
     det = dict(kernel=name, n=n, d=d, design=case["design"], pattern=case["pattern"])
+    # absolute coordinate scale (keys xscale/..): the same configuration in other units of x: every coordinate multiplied by xs, the
+    # length-scales, change-point locations and widths carried along; everything below (reference included) works on the scaled floats
+    xs = float(case.get("xscale", 1.0))
+    if "xscale" in case:
+        X = np.ascontiguousarray(X * xs)
+        for p_, inf_ in enumerate(info):
+            if inf_["kind"] == "log-scale":
+                theta[p_] += np.log(xs)
+            elif inf_["kind"] in ("cp-location", "cp-width"):
+                theta[p_] *= xs
+        det["xscale"] = xs
 
     def sl(key, err, tol):
         r = float(err) / tol if tol > 0 else (0.0 if err == 0 else float("inf"))
@@ -233,7 +247,7 @@ def ev_kernel(case):
         fails.append(fail(f"psd/{fam}/builder", f"{name}: lambda_min of build_covariance = {lam:.3e}", theta=theta, X=X, **det))
     # ------------------------------------------------------------------ rectangular blocks
     if True:
-        U = np.vstack([X[: max(1, n // 2)] + 0.071, X[:1] * 0.5 - 0.3, X[-1:]])  # m = n//2 + 2 points, one is a data point
+        U = np.vstack([X[: max(1, n // 2)] + 0.071 * xs, X[:1] * 0.5 - 0.3 * xs, X[-1:]])  # m = n//2 + 2 points, one is a data point
         for nameuv, (A, Bm) in (("(m,n)", (U, X)), ("(1,n)", (U[1:2], X)), ("(m,1)", (U, X[:1]))):
             try:
                 with lib(f"call{nameuv}"):
@@ -367,8 +381,14 @@ def ev_kernel(case):
             if len(head) != len(exp) or not all(np.allclose(a, b, rtol=1e-12, atol=0, equal_nan=True) for a, b in zip(head, exp)):
                 fails.append(fail(f"compose/{fam}/bounds-not-concatenated", f"{name}: bounds {head} are not the components' bounds {exp} in order", **det))
             tags.add(f"bounds:{kd}")
-    tags.add(f"{name},d={d},n={n},{case['design']}")
-    tags.add(f"family={fam},pattern={case['pattern']}")
+    if "xscale" in case:
+        for f_ in fails:
+            f_["key"] = "xscale/" + f_["key"]
+        slack = {"xscale/" + k_: v_ for k_, v_ in slack.items()}
+        tags = {f"xscale={xs:g}:{name},d={d},n={n},{case['design']}", f"xscale={xs:g}:family={fam},pattern={case['pattern']}"}
+    else:
+        tags.add(f"{name},d={d},n={n},{case['design']}")
+        tags.add(f"family={fam},pattern={case['pattern']}")
     return {
         "fails": fails[:30],
         "n": nev,
@@ -1436,6 +1456,19 @@ def run(ck):
                 for pat in pats:
                     cases.append({"spec": spec, "n": n, "d": d, "design": des, "pattern": pat, "seed": seed, "classes": bool((ki + pat) % 2)})
     ck.run_cases("kernel", cases)
+    # ---- the same configurations at absolute coordinate scales far from 1 (simplest first: the scales nearest 1)
+    xmenu = [(3, 1, "regular"), (4, 2, "permuted"), (5, 3, "clustered"), (2, 1, "regular"), (4, 3, "dups"), (5, 2, "regular"), (3, 2, "clustered"), (6, 1, "permuted")]
+    xcs = []
+    for ki, spec in enumerate(KERNELS):
+        dmin = needs_axis(spec) + 1
+        for j in range(1 if quick else 4):
+            n, d, des = xmenu[(ki + seed + 2 * j) % len(xmenu)]
+            d = max(d, dmin)
+            for pat in ([(ki + j + 2 * seed) % 9] if quick else [(ki + j + 2 * seed) % 9, (ki + j + 2 * seed + 4) % 9]):
+                for xsc in XSCALES:
+                    xcs.append({"spec": spec, "n": n, "d": d, "design": des, "pattern": pat, "seed": seed, "classes": bool((ki + pat) % 2), "xscale": xsc})
+    ck.run_cases("kernel", xcs)
+    ck.extra["xscale_lattice"] = {"scales": XSCALES, "cases": len(xcs)}
     ub = []
     for (n, d) in [(3, 1), (5, 2), (8, 3)]:
         # every given / not-given combination: per component (hyperpar_bounds), and location_bounds x width_bounds of a ChangePoint
@@ -1549,6 +1582,10 @@ def run(ck):
         "FIRST data again' inserted at every later position q (quick, three leaves: q = p and q = end); later pass / bounds operations use the current data; after every operation "
         "every object must equal, bit for bit, a freshly built object of its expression given the CURRENT data, evaluated first at the hyper-parameters of the most recent "
         "evaluation before the data changed and then at the other pattern. "
+        "Coordinate-scale lattice (keys xscale/<any kernel key>): every kernel composition on a rotating (n, d, design, pattern) (thorough: four point sets x two patterns) with ALL coordinates "
+        "multiplied by 1e-9, 1e-7, 1e-4, 1e4, 1e9 and the length-scales, change-point locations and widths carried along (the same configuration in other units of x), through every oracle of the "
+        "kernel evaluator (builder = formula = pairwise + documented diagonal terms, blocks, symmetry, psd, gradients = exact partial derivatives of the built matrix, composition); the reference "
+        "is evaluated on the same scaled floats; distinct by (scale, kernel, n, d, design) and (scale, family, pattern). "
         "Extreme regimes (keys extreme/..): {%d kernels: change-points with 2 and 3 kernels, nested, summed with noise, on axis 0/1, and SE, RQ, SE+RQ+WN} x "
         "{change-point width 1e-6, 1e-4, 1e-2, 1, 1e2 data ranges} x {location inside, at the lower / upper data edge, one range below / above the data} x "
         "{length-scale 1e-3, 1, 1e3 ranges} x {log-amplitudes from the pattern, all +10, all -10, alternating +-10} (thorough: the full product on two point sets; "
@@ -1564,6 +1601,8 @@ def run(ck):
               "rational-quadratic leaf value, ABSOLUTE eps for each logistic weight f and 1 - f (so where two regions differ by more than 1/eps in amplitude the smaller one is only "
               "checked to the larger one's rounding), eps/w and 40 eps/w for the weight's derivatives w.r.t. location and width; gradients are compared wherever the reference "
               "derivative is a finite double (others are skipped and counted); values below 1e-300 are compared absolutely")
+    ck.assume("coordinate-scale lattice: units of x from 1e-9 to 1e9 with length-scales 0.3 .. 3.7 units and change-point widths 0.03 .. 1.1 data ranges, expressed in the same units "
+              "(length-scales and coordinates down to 3e-10 and up to 4e9 in absolute terms); the tolerances are the scale-free ones of the base lattice (1/width for the change-point derivatives)")
     ck.assume("continuous inputs are represented by the listed deterministic point designs (n <= 8, d <= 3) and three levels per hyper-parameter block")
     ck.assume("jitter: any diagonal addition in [0, 1e-10*K_ii] is accepted as the documented 'small values added to the diagonal'; its exact size is not pinned")
     ck.assume("labels: a composite may prefix the component's label (suffix match accepted); mean functions may expand about the data centroid or the origin")
